@@ -495,6 +495,28 @@ func (cg *caseGen) rec(cx ectx) (*pvcase.Expr, bool) {
 	for i := 0; i < nl; i++ {
 		labels = append(labels, pickStr(cg.r, throwLabels))
 	}
+	if cg.f.act && cg.f.lab && !cx.inRecover && cg.chance(0.25) {
+		// `k:X %{L} //{L} r:Y {code}`: the recovery expression shares the label scope of the guarded expression (one
+		// parameter list for its code blocks), and the throw stands directly in the labelled sequence, so the recovery
+		// expression runs in the frame where k is bound: the action must see k's value (and its own r).
+		k := lab(pickStr(cg.r, valueLabels), cg.operand())
+		thr := &pvcase.Expr{Kind: pvcase.KThr, Label: labels[0]}
+		var body *pvcase.Expr = seqOf(k, thr)
+		if cg.chance(0.4) {
+			// k:X ("=" v:Y / %{L}) would hide k from the throw (a choice alternative has its own frame): keep the throw
+			// at the top level, after an optional separator
+			body = seqOf(k, un(pvcase.KOpt, cg.nonEmptyLit()), thr)
+		}
+		var rest *pvcase.Expr = cg.recoverSkip()
+		if cg.chance(0.6) {
+			rest = lab(pickStr(cg.r, valueLabels), rest)
+		}
+		rexp := un(pvcase.KAct, rest)
+		if cg.f.pred && cg.chance(0.3) {
+			rexp = un(pvcase.KAct, seqOf(rest, &pvcase.Expr{Kind: pvcase.KAndc}))
+		}
+		return &pvcase.Expr{Kind: pvcase.KRec, Kids: []*pvcase.Expr{body, rexp}, Labels: labels}, true
+	}
 	in := cx
 	in.recs = append(append([]string(nil), cx.recs...), labels...)
 	body, bn := cg.expr(in)
